@@ -54,6 +54,7 @@ fn main() {
         "C18" => props::c18::run(&mut ctx, &mut report),
         "C16" => props::c16::run(&mut ctx, &mut report),
         "C14" => props::c14::run(&mut ctx, &mut report),
+        "C27" => props::c27::run(&mut ctx, &mut report),
         "C02" | "C03" | "C04" | "C05" | "C06" | "C07" | "C09" | "C10" | "C19" | "C20" => {
             // C10: the dedicated search runs first; when it finds a malformed trace the generic history run is skipped (a trace that
             // carries the placeholder generation makes later runs of the same history allocate ~80 GB and abort the process)
